@@ -22,7 +22,9 @@ def _v(*alts):
 
 
 SPECIAL_ITEMS = st.sampled_from(["StopAsyncIteration", "StopIteration", "NotImplemented", "Ellipsis", "GeneratorExit",
-                                 "object", "type", "KeyError", "IndexError"]).map(lambda n: ["x", n])
+                                 "object", "type", "KeyError", "IndexError", "StopAsyncIteration()",
+                                 "StopAsyncIteration()", "StopIteration()", "GeneratorExit()", "KeyError()"]
+                                ).map(lambda n: ["x", n])
 TRUTHY_PRIMS = _v(["i", 0], ["i", 1], ["i", 2], ["s", ""], ["s", "x"], ["n"], ["n"], ["n"], ["b", True],
                   ["b", False], ["f", 0.0], ["f", 0.5], ["l", []], ["l", [["i", 0]]], ["t", []])
 NUM_PRIMS = st.one_of(
